@@ -1,6 +1,6 @@
 """C07 - source text denotes one tree: precedence, associativity, layout-independence."""
 import re
-import vlib, front, gensyn, nlast
+import progcheck, vlib, front, gensyn, nlast
 from nlast import Layout
 
 COQ_TARGETS = ["props/C07.vo", "corr/CorrFront.vo", "corr/CorrPrinter.vo"]
@@ -17,6 +17,8 @@ NOTES = ["proved: parse_tokens_print (all trees in the parser's image), wf_compl
 
 
 def run(ctx, log):
+    # the same small programs at every size around the widths the implementation encodes things in (closed-form results)
+    progcheck.run_scale(ctx, log, ['statements', 'nesting'])
     rng = ctx.rng
     atoms = [("id", "a"), ("int", 1)] if ctx.quick else [("id", "a"), ("int", 1), ("id", "b")]
     trees = [[("expr", e)] for e in gensyn.enum_exprs(2, atoms)]
